@@ -452,6 +452,16 @@ class AccSignal(Signal):
         self._s_v = None
         self._s_d = None
 
+    @property
+    def response_times(self):
+        """Periods of the SDOFs used for the response spectra"""
+        return self._response_times
+
+    @response_times.setter
+    def response_times(self, values):
+        self._response_times = values
+        self._cached_response_spectra = False  # spectra computed for other periods are stale
+
     def clear_cache(self):
         self._cached_smooth_fa = False
         self._cached_fa = False
